@@ -5,7 +5,7 @@ CONSTANTS
   GPUs = {1, 2}
   PageDev <- MCPageDev2
   PhysPage <- MCPhys
-  SpareDev = <<2, 1>>
+  SpareDev <- MCSpare2
   MaxRemap = 2
   Bufs <- MCBufs1
   Ctxs = {1}
